@@ -4,12 +4,16 @@ generates; a refuted hypothesis is reported as a broken proof obligation of the 
 
   SecsNonEmpty   (C03_secFinder_total, C03_chunkParser_total, C03_plssParser_total, C20_no_colons_cautious):
                  every multisec_regex match unpacks to at least one section.
+                 (since proved for the regenerated pattern: C20_sec_match_unpacks_nonempty; still monitored on CPython)
   LotsNonEmpty   (used informally by C06): every multilot_regex match unpacks to at least one lot.
+  NoMarkerCollision (C03_plssParser_never_raises, hypothesis SecFirstChunksOK): in a *preprocessed* text no section
+                 reference starts exactly where a Twp/Rge starts or ends (such a collision overwrites the section's
+                 start marker and a tract would be staged without a section).
 """
-from pytrs.parser.rgxlib import multisec_regex, multilot_regex
+from pytrs.parser.rgxlib import multisec_regex, multilot_regex, twprge_regex
 from pytrs.parser.unpack.unpackers import SecUnpacker, LotUnpacker
 
-COUNTS = {'SecsNonEmpty': 0, 'LotsNonEmpty': 0}
+COUNTS = {'SecsNonEmpty': 0, 'LotsNonEmpty': 0, 'NoMarkerCollision': 0}
 
 
 def check_text(rep, text, lots=False):
@@ -29,6 +33,20 @@ def check_text(rep, text, lots=False):
                     ok = False
                     rep.violation('lexical-contract', {'hypothesis': 'LotsNonEmpty', 'text': text, 'match': mo.group(),
                                                        'why': 'a multilot_regex match unpacked to an empty lot list'}, no_input=True)
+        # marker collisions, on the text the parser actually walks (the preprocessed one)
+        import pytrs
+        pp = pytrs.PLSSDesc(text, wait_to_parse=True).pp_desc
+        bounds = set()
+        for mo in twprge_regex.finditer(pp):
+            bounds.add(mo.start())
+            bounds.add(mo.end())
+        for mo in multisec_regex.finditer(pp):
+            COUNTS['NoMarkerCollision'] += 1
+            if mo.start() in bounds:
+                ok = False
+                rep.violation('lexical-contract', {'hypothesis': 'NoMarkerCollision', 'text': text, 'preprocessed': pp,
+                                                   'match': mo.group(), 'why': 'a section reference starts at a Twp/Rge boundary'},
+                              no_input=True)
     except Exception:  # noqa  (totality itself is checked by the caller)
         pass
     return ok
